@@ -208,6 +208,78 @@ fn os_raw_tombstones() {
     kani::cover!(n == 2);
 }
 
+/// merge(S, O) with S and O concrete, each holding at most ONE key (live or tombstone, symbolic
+/// key/stamp, possibly the same key on both sides), versions of both concrete with at most one origin
+/// each: for the probe key, slot' == k_merge(slot_S, slot_O, ...); newest stamps become the pointwise
+/// maximum; S's cut-off for the origins involved is recomputed; live/dead stay disjoint.
+fn one_key_state() -> (SetN, Key, Slot) {
+    let mut s: SetN = OrSWotSet::default();
+    let k: Key = kani::any();
+    let ts = any_valid_ts();
+    let kind: u8 = kani::any();
+    kani::assume(kind < 3);
+    let slot = match kind {
+        0 => Slot::Empty,
+        1 => {
+            s.entries.insert(k, ts);
+            Slot::Live(ts.as_u64())
+        },
+        _ => {
+            s.dead.insert(k, ts);
+            Slot::Dead(ts.as_u64())
+        },
+    };
+    // versions: the origin of the held stamp has been seen through source 0 at some stamp >= it
+    if kind != 0 {
+        let seen = any_valid_ts();
+        kani::assume(seen.node() == ts.node() && seen >= ts);
+        s.versions.try_update_max_stamp(0, seen);
+    }
+    (s, k, slot)
+}
+fn slot_at(s: &SetN, k: Key) -> Slot {
+    slot(s, k)
+}
+#[kani::proof]
+#[kani::unwind(10)]
+fn os_merge_kernel() {
+    let (mut s, ks, slot_s) = one_key_state();
+    let (o, ko, slot_o) = one_key_state();
+    let same: bool = kani::any();
+    if same {
+        kani::assume(ks == ko);
+    } else {
+        kani::assume(ks != ko);
+    }
+    // distinct timestamps
+    if let (Some(a), Some(b)) = (stamp_of(slot_s), stamp_of(slot_o)) {
+        kani::assume(a != b);
+    }
+    let probe = ks;
+    let sp = slot_s;
+    let op = if same { slot_o } else { Slot::Empty };
+    let s_before_lo = match sp {
+        Slot::Live(e) => k_before(l_at(&o, (e & 0xFF) as u8), e),
+        _ => false,
+    };
+    let o_before_ls = match op {
+        Slot::Dead(t) => k_before(l_at(&s, (t & 0xFF) as u8), t),
+        _ => false,
+    };
+    s.merge(o);
+    assert!(slot_at(&s, probe) == k_merge(sp, op, s_before_lo, o_before_ls), "merge acts per key as the merge kernel");
+    assert!(!(s.entries.get(&probe).is_some() && s.dead.get(&probe).is_some()), "live and dead stay disjoint");
+    kani::cover!(same && matches!(sp, Slot::Live(_)) && matches!(op, Slot::Dead(_)), "own live entry meets peer tombstone");
+    kani::cover!(same && matches!(sp, Slot::Dead(_)) && matches!(op, Slot::Live(_)), "own tombstone meets peer live entry");
+}
+fn stamp_of(s: Slot) -> Option<u64> {
+    match s {
+        Slot::Empty => None,
+        Slot::Live(t) => Some(t),
+        Slot::Dead(t) => Some(t),
+    }
+}
+
 // native replay of Kani counterexamples (tools/replay.py writes the file)
 #[cfg(verif_replay)]
 include!("/verif/build/orswot_b/replay_tests.rs");
